@@ -3,22 +3,15 @@
    (neurodiffeq/callbacks.py, monitors.py to_callback, the fit loop of solvers.py) in
    model/Callbacks.v and model/CallbacksEve.v.
 
-   Full-strength statements that FAIL on the unchanged tree (known findings, witnesses in
-   findings/F_C16_callbacks.v); the theorem proved below carries the restricting hypothesis:
+   History: the full-strength statements C16_optimizer_params_nodup, C16_repeated_spec,
+   C16_below_above_spec and C16_repeated_tree_spec were refuted on the original tree (design
+   F5 / F10: SetOptimizer chained parameters without de-duplication; _RepeatedMetricChange
+   counted its own evaluations).  After the repairs (fix commits 988d08c and 9737159) they are
+   proved below without restricting hypotheses; the former `_partial` theorems are gone.
 
-   (F5)  optimizer_params_nodup :
-           forall nets, Forall NoDup nets -> NoDup (opt_params nets)
-         refuted by two nets that share parameters; proved: C16_optimizer_params_nodup_partial
-         under NoDup (concat nets).
-   (F10) repeated_spec for a callback created when the history is not empty, or placed behind a
-         short-circuiting operand of & / |:
-           forall p vs, fst (run_pred p vs) = map (fun v => psem v p) vs
-         refuted (late attachment, short circuit); proved: C16_repeated_spec (counter 0 on an
-         empty history, evaluated after every append) and C16_repeated_tree_spec (fresh /
-         always_eval / consecutive).
-         RepeatedMetricBelow/Above: the documented "value below/above the threshold for the
-         latest n epochs" (streak1) is refuted for histories of length <= n; proved:
-         C16_below_above_actual. *)
+   Still open (known_findings.d/C16.json, findings/F_C16_callbacks.v): the history key of a
+   custom metric, '<phase>_<name>' in the callbacks vs '<phase>__<name>' in the solver; the
+   model has the two loss histories only, so no theorem below speaks about custom metrics. *)
 From Coq Require Import ZArith List Bool Reals.
 From Flocq Require Import Core.Raux.
 From ND.model Require Import Callbacks CallbacksEve.
@@ -106,40 +99,42 @@ Theorem C16_set_once_spec : forall reset fires t,
   nth t fires false && (reset || negb (existsb (fun b : bool => b) (firstn t fires))).
 Proof. exact set_once_spec. Qed.
 
-Theorem C16_optimizer_params_nodup_partial : forall {P : Type} (nets : list (list P)),
-  NoDup (concat nets) ->
-  NoDup (opt_params nets) /\ (forall p, In p (opt_params nets) <-> exists net, In net nets /\ In p net).
-Proof. exact @optimizer_params_nodup_partial. Qed.
+Theorem C16_optimizer_params_nodup :
+  forall {P : Type} (dec : forall x y : P, {x = y} + {x <> y}) (nets : list (list P)),
+  NoDup (opt_params dec nets) /\
+  (forall p, In p (opt_params dec nets) <-> exists net, In net nets /\ In p net) /\
+  (forall p net, In net nets -> In p net -> count_occ dec (opt_params dec nets) p = 1%nat).
+Proof. exact @optimizer_params_nodup. Qed.
 
-Theorem C16_optimizer_params_count :
-  forall {P : Type} (dec : forall x y : P, {x = y} + {x <> y}) (nets : list (list P)) (p : P),
-  count_occ dec (opt_params nets) p = fold_right (fun net acc => (count_occ dec net p + acc)%nat) O nets.
-Proof. exact @opt_params_count. Qed.
+(* ---- repeated-metric callbacks: every history, every state, whenever evaluated ---------- *)
 
-(* ---- repeated-metric callbacks --------------------------------------------------------- *)
-
-Theorem C16_repeated_spec : forall {V : Type} (rel : V -> V -> bool) (d : V) (n : Z) (xs : list V) (t : nat),
-  (t < length xs)%nat ->
-  let h := rev (firstn (S t) xs) in
-  nth t (rep_trace rel n 0 [] xs) false = true <->
-  (forall i : nat, Z.of_nat i < n -> (S i < length h)%nat /\ rel (nth i h d) (nth (S i) h d) = true).
-Proof. exact @repeated_spec. Qed.
-
-Theorem C16_repeated_callback_spec : forall k tr n xs vs t,
-  map (hist_of tr) vs = growing [] xs -> (t < length xs)%nat ->
-  let h := rev (firstn (S t) xs) in
-  nth t (fst (run_pred (repeated k tr n) vs)) false = true <->
+Theorem C16_repeated_spec : forall k tr n s v,
+  pairwise_of k = true ->
+  let h := hist_of tr v in
+  cond v (PRepeated k tr n s) = true <->
   (forall i : nat, Z.of_nat i < n -> (S i < length h)%nat /\ rel_of k (nth i h 0) (nth (S i) h 0) = true).
-Proof. exact repeated_callback_spec. Qed.
+Proof. exact repeated_spec. Qed.
 
-Theorem C16_repeated_tree_spec : forall p vs,
-  fresh p = true -> always_eval p = true -> consecutive [] [] vs ->
-  fst (run_pred p vs) = map (fun v => psem v p) vs.
+Theorem C16_below_above_spec : forall k tr n s v,
+  pairwise_of k = false ->
+  let h := hist_of tr v in
+  cond v (PRepeated k tr n s) = true <->
+  (forall i : nat, Z.of_nat i < n -> (i < length h)%nat /\ val_of k (nth i h 0) = true).
+Proof. exact below_above_spec. Qed.
+
+(* generic in the value type and the relation: the loop of condition() against the history *)
+Theorem C16_streak_cap_spec : forall {V : Type} (rel : V -> V -> bool) (d : V) (cap n : nat) (h : list V),
+  (n <= cap)%nat ->
+  ((n <= streak_cap rel cap h)%nat <->
+   (forall i, (i < n)%nat -> (S i < length h)%nat /\ rel (nth i h d) (nth (S i) h d) = true)).
+Proof. exact @streak_cap_spec. Qed.
+
+(* any callback expression, any state, any view: the documented Boolean meaning *)
+Theorem C16_tree_spec : forall p v, cond v p = psem v p.
+Proof. exact tree_spec. Qed.
+
+Theorem C16_repeated_tree_spec : forall vs p, fst (run_pred p vs) = map (fun v => psem v p) vs.
 Proof. exact repeated_tree_spec. Qed.
-
-Theorem C16_below_above_actual : forall {V : Type} (f : V -> bool) (h : list V),
-  streak (fun last _ => f last) h = Nat.min (streak1 f h) (Nat.pred (length h)).
-Proof. exact @below_above_actual. Qed.
 
 (* ---- EveCallback ----------------------------------------------------------------------- *)
 
